@@ -106,7 +106,7 @@ def server_recover_list(server):
 
 
 def config_block(rng, profile=None, https=None, trial=False, domains=None, jitter=None, sleeptime=None, key_bits=1024,
-                 extra=()):
+                 extra=(), verbs=(b"GET", b"POST"), submit=None):
     """-> (config block bytes, description dict)"""
     get, post, server = profile or gen_profile(rng)
     https = rng.random() < 0.5 if https is None else https
@@ -114,7 +114,7 @@ def config_block(rng, profile=None, https=None, trial=False, domains=None, jitte
     der = key.publickey().export_key("DER")
     domains = domains or rng.choice(["c2.example,/api/v1", "a.example,/load,b.example,/fetch", "10.0.0.5,/ca,10.0.0.6,/cx,10.0.0.7,/cm"])
     ua = rng.choice(["Mozilla/5.0 (Windows NT 10.0; Win64; x64)", "curl/8.0", "Mozilla/4.0 (compatible; MSIE 8.0)"])
-    submit = rng.choice(["/submit.php", "/api/v1/push", "/s"])
+    submit = submit or rng.choice(["/submit.php", "/api/v1/push", "/s"])
     jitter = rng.choice([0, 10, 37, 100]) if jitter is None else jitter
     sleeptime = rng.choice([1000, 60000, 5000]) if sleeptime is None else sleeptime
     port = 443 if https else 80
@@ -131,8 +131,8 @@ def config_block(rng, profile=None, https=None, trial=False, domains=None, jitte
         setting(11, T_PTR, enc_recover_program(server_recover_list(server)), 256),
         setting(12, T_PTR, enc_transform_program(get), 512),
         setting(13, T_PTR, enc_transform_program(post), 512),
-        setting(26, T_PTR, b"GET", 16),
-        setting(27, T_PTR, b"POST", 16),
+        setting(26, T_PTR, verbs[0], 16),
+        setting(27, T_PTR, verbs[1], 16),
         setting(28, T_INT, 96),
         setting(29, T_PTR, b"%windir%\\syswow64\\rundll32.exe", 64),
         setting(30, T_PTR, b"%windir%\\sysnative\\rundll32.exe", 64),
@@ -148,5 +148,5 @@ def config_block(rng, profile=None, https=None, trial=False, domains=None, jitte
         s.append(e)
     block = b"".join(s) + u16(0)
     desc = {"get": get, "post": post, "server": server, "https": https, "domains": domains, "user_agent": ua, "submit_uri": submit,
-            "jitter": jitter, "sleeptime": sleeptime, "port": port, "trial": trial, "key_bits": key_bits}
+            "jitter": jitter, "sleeptime": sleeptime, "port": port, "trial": trial, "key_bits": key_bits, "verbs": verbs}
     return block, desc
